@@ -29,7 +29,7 @@ Definition oc_denote (c : oc_cst) : objclass :=
        (match h_obs (oc_h c) with Some _ => true | None => false end)
        (part_den oids_den (oc_csup c))
        (match oc_ckind c with Some (_, k) => k | None => 1 end)
-       (part_den oids_den (oc_cmust c)) (part_den oids_den (oc_cmay c)) (map ext_den (oc_cext c)).
+       (part_den oids_den (oc_cmust c)) (part_den oids_den (oc_cmay c)) (exts_den (oc_cext c)).
 
 Definition oc_cst_wf (c : oc_cst) : Prop :=
   head_ok (oc_h c) /\ part_ok oids_wf (oc_csup c) /\
@@ -70,7 +70,7 @@ Lemma rej5 : rej_ok OC_tail5.  Proof. split; [reflexivity|apply first_tail5]. Qe
 Lemma rej4 : rej_ok OC_tail4.  Proof. split; [reflexivity|apply first_tail4]. Qed.
 
 Lemma goc_t8 c : oc_cst_wf c -> tail_ok OC_tail8 (o8 c) 91 (P8 c).
-Proof. intros (_ & _ & _ & _ & _ & [He _]). apply (ext_tail_g 91); [lia|assumption]. Qed.
+Proof. intros (_ & _ & _ & _ & _ & He). apply (ext_tail_g 91); [lia|assumption]. Qed.
 
 Lemma goc_t7 c : oc_cst_wf c -> tail_ok OC_tail7 (o7 c) 68 (P7 c).
 Proof.
@@ -169,5 +169,4 @@ Proof.
   - constructor; [left; repeat constructor|]. constructor; [|constructor]. right. exists [49], [50], []. repeat split; constructor.
   - constructor; [left; repeat constructor|constructor].
   - repeat constructor; try discriminate.
-  - repeat constructor; cbn; intuition discriminate.
 Qed.
